@@ -418,6 +418,90 @@ Qed.
 Lemma fold_add_group ps : a_out (fold_left (step_add add_setitem) ps (add_init [])) = group ps.
 Proof. apply (inv_out _ _ (fold_add_inv ps [] _ add_inv_init)). Qed.
 
+(* ---- the same closure writing into a dict that already holds entries ---- *)
+
+Definition keys {V} (d : list (str * V)) : list str := map fst d.
+
+Lemma dict_set_keys_in {V} (d : list (str * V)) k v k' : In k' (keys d) -> In k' (keys (dict_set d k v)).
+Proof.
+  induction d as [|[k0 v0] d IH]; cbn [dict_set keys map fst In]; [tauto|].
+  destruct (str_eqb k0 k); cbn [keys map fst In]; tauto.
+Qed.
+
+Lemma dict_set_keys_self {V} (d : list (str * V)) k v : In k (keys (dict_set d k v)).
+Proof.
+  induction d as [|[k0 v0] d IH]; cbn [dict_set keys map fst In]; [auto|].
+  destruct (str_eqb_spec k0 k) as [->|]; cbn [keys map fst In]; auto.
+Qed.
+
+Lemma dict_set_twice {V} (d : list (str * V)) k v v' : dict_set (dict_set d k v) k v' = dict_set d k v'.
+Proof.
+  induction d as [|[k0 v0] d IH]; cbn [dict_set]; [now rewrite str_eqb_refl|].
+  destruct (str_eqb k0 k) eqn:E; cbn [dict_set]; rewrite E; [reflexivity | now rewrite IH].
+Qed.
+
+(* two assignments commute when the first key is already present (no new key is appended before it) *)
+Lemma dict_set_comm {V} (d : list (str * V)) k v k1 v1 :
+  k <> k1 -> In k (keys d) ->
+  dict_set (dict_set d k1 v1) k v = dict_set (dict_set d k v) k1 v1.
+Proof.
+  intros Hne. induction d as [|[k0 v0] d IH]; cbn [keys map fst In]; [tauto|].
+  intros Hin. cbn [dict_set].
+  destruct (str_eqb k0 k1) eqn:E1; destruct (str_eqb k0 k) eqn:E2; cbn [dict_set]; rewrite ?E1, ?E2.
+  - apply str_eqb_eq in E1. apply str_eqb_eq in E2. congruence.
+  - reflexivity.
+  - reflexivity.
+  - f_equal. apply IH. destruct Hin as [Hin|Hin]; [|exact Hin].
+    cbn [fst] in Hin. subst k0. rewrite str_eqb_refl in E2. discriminate.
+Qed.
+
+Lemma dict_update_cons (d : fdict) k v e : dict_update d ((k, v) :: e) = dict_update (dict_set d k v) e.
+Proof. reflexivity. Qed.
+
+Lemma dict_update_set_present (e d : fdict) k v :
+  In k (keys d) -> ~ In k (keys e) -> dict_set (dict_update d e) k v = dict_update (dict_set d k v) e.
+Proof.
+  revert d. induction e as [|[k1 v1] e IH]; intros d Hin Hnot; [reflexivity|].
+  cbn [keys map fst In] in Hnot. rewrite !dict_update_cons.
+  rewrite IH by (try apply dict_set_keys_in; tauto).
+  rewrite dict_set_comm by (try assumption; intros ->; tauto). reflexivity.
+Qed.
+
+(* writing one more entry into the parsed part commutes with the merge into the old dict *)
+Lemma dict_update_set_comm (g d : fdict) k v :
+  NoDup (keys g) -> dict_update d (dict_set g k v) = dict_set (dict_update d g) k v.
+Proof.
+  revert d. induction g as [|[k0 v0] g IH]; intros d Hnd; [reflexivity|].
+  cbn [keys map fst] in Hnd. inversion Hnd as [|? ? Hk0 Hnd']; subst.
+  cbn [dict_set]. destruct (str_eqb_spec k0 k) as [->|Hn].
+  - rewrite !dict_update_cons.
+    rewrite dict_update_set_present by (try apply dict_set_keys_self; exact Hk0).
+    rewrite dict_set_twice. reflexivity.
+  - rewrite !dict_update_cons. apply IH, Hnd'.
+Qed.
+
+Lemma group_keys_nodup ps : NoDup (keys (group ps)).
+Proof.
+  unfold group, keys. rewrite map_map. cbn [fst]. rewrite map_id. apply dedup_nodup.
+Qed.
+
+Lemma fold_add_into d0 ps : forall p0 st1 st2,
+  add_inv p0 st2 ->
+  a_seen st1 = a_seen st2 -> a_lists st1 = a_lists st2 -> a_out st1 = dict_update d0 (a_out st2) ->
+  a_out (fold_left (step_add add_setitem) ps st1)
+  = dict_update d0 (a_out (fold_left (step_add add_setitem) ps st2)).
+Proof.
+  induction ps as [|[k v] ps IH]; intros p0 st1 st2 Hinv Hs Hl Ho; cbn [fold_left]; [exact Ho|].
+  unfold step_add at 2 4. cbn [fst snd].
+  apply (IH (p0 ++ [(k, v)])); [apply add_inv_step, Hinv | | |];
+    unfold add_setitem; rewrite Hs, Hl;
+    (destruct (dict_get (a_lists st2) k) as [[|x vl]|];
+     [destruct (dict_get (a_seen st2) k)| |destruct (dict_get (a_seen st2) k)]); cbn [a_seen a_lists a_out];
+    try reflexivity; try congruence;
+    rewrite Ho; symmetry; apply dict_update_set_comm;
+    rewrite (inv_out _ _ Hinv); apply group_keys_nodup.
+Qed.
+
 Lemma fold_add_pair ps : forall acc, fold_left (step_add add_pair) ps acc = acc ++ ps.
 Proof.
   induction ps as [|[k v] ps IH]; intros acc; cbn [fold_left]; [now rewrite app_nil_r|].
@@ -734,3 +818,19 @@ Proof.
   - subst ro. reflexivity.
   - intros -> st'. cbn [cache_step]. destruct (c_cached st); [|discriminate]. intros [= <-]. reflexivity.
 Qed.
+
+(* ---- parse_qsl(qs, setitem=d.__setitem__) on a dict that already holds entries ---- *)
+Lemma C18_setitem_into_lemma :
+  forall (d0 : fdict) (ps : list (str * str)),
+    (forall k v, In (k, v) ps -> k <> [] /\ Forall scalar k /\ Forall scalar v) ->
+    parse_qsl_into d0 (urlencode ps) = QDone (dict_update d0 (group ps))
+    /\ parse_qsl_into d0 (urlencode_q ps) = QDone (dict_update d0 (group ps)).
+Proof.
+  intros d0 ps H. apply sendable_of_in in H. unfold parse_qsl_into, urlencode, urlencode_q.
+  rewrite (run_urlencode add_setitem quote_plus unquote_plus_quote_plus quote_plus_chars quote_plus_nonempty) by exact H.
+  rewrite (run_urlencode add_setitem quote unquote_plus_quote quote_chars quote_nonempty) by exact H.
+  cbn [qres_of].
+  rewrite (fold_add_into d0 ps [] (add_init d0) (add_init []) add_inv_init eq_refl eq_refl eq_refl).
+  rewrite fold_add_group. auto.
+Qed.
+
